@@ -471,10 +471,7 @@ func C05(c *core.Ctx) {
 			good, why := false, "the stored value is neither len(name) on a fresh entry nor max(md, …)"
 			switch {
 			case isFreshObject(fa.X):
-				_, good = core.LenOf(v)
-				if k, isC := core.ConstInt(v); isC && k >= 0 {
-					good = true
-				}
+				good = isLenLike(p, v, 0)
 			case isMaxOf(v, isOwnMd):
 				good = true
 				if h := loopHeader(in.Block()); h != nil && !everyIterationPasses(fn, h, func(x ssa.Instruction) bool { return x == in }) {
@@ -571,7 +568,7 @@ func C05(c *core.Ctx) {
 	// on insertion (stored as max(old, len(name)), or initialised in a fresh entry)
 	if ins := c.Fn("R5.5", "fw/table", "FibStrategyHashTable", "insertEntryEnc"); ins != nil {
 		n := 0
-		core.Instrs(ins, func(in ssa.Instruction) {
+		core.InstrsDeep(ins, func(in ssa.Instruction) {
 			fa, v, ok := storeToField(in, "virtualDetails", "md")
 			if !ok {
 				return
@@ -722,4 +719,38 @@ func isSlicesDelete(v ssa.Value) bool {
 	}
 	id, ok := core.Callee(&cl.Call)
 	return ok && id.Pkg == "slices" && strings.HasPrefix(id.Name, "Delete")
+}
+
+// isLenLike: v is a length — len(x), a non-negative constant, or a parameter to which
+// every call site passes a length.
+func isLenLike(p *core.Prog, v ssa.Value, depth int) bool {
+	v = core.StripConv(v)
+	if _, ok := core.LenOf(v); ok {
+		return true
+	}
+	if k, isC := core.ConstInt(v); isC && k >= 0 {
+		return true
+	}
+	par, ok := v.(*ssa.Parameter)
+	if !ok || depth > 2 {
+		return false
+	}
+	fn := par.Parent()
+	idx := -1
+	for i, q := range fn.Params {
+		if q == par {
+			idx = i
+		}
+	}
+	sites := p.Callers(fn)
+	if idx < 0 || len(sites) == 0 {
+		return false
+	}
+	for _, cs := range sites {
+		args := cs.Common().Args
+		if cs.Common().IsInvoke() || idx >= len(args) || !isLenLike(p, args[idx], depth+1) {
+			return false
+		}
+	}
+	return true
 }
